@@ -2,6 +2,8 @@ package main
 
 import (
 	"net"
+	"os"
+	"path/filepath"
 	"runtime"
 
 	"github.com/ethereum/go-ethereum/crypto"
@@ -12,3 +14,11 @@ func keccak(b []byte) []byte { return crypto.Keccak256(b) }
 func netPipe() (net.Conn, net.Conn) { return net.Pipe() }
 
 func runtimeStack(buf []byte) int { return runtime.Stack(buf, false) }
+
+func readFileMaybe(dir, name string) ([]byte, error) {
+	b, err := os.ReadFile(filepath.Join(dir, name))
+	if os.IsNotExist(err) {
+		return nil, nil
+	}
+	return b, err
+}
